@@ -252,3 +252,51 @@ class VerifNoteOperation(FloatOperation):
 
     def _process_logic(self, data, note):
         return FloatDataType(data.data)
+
+
+# ---- context processors with unusual but accepted context contents (direct oracles of C10) ----
+from semantiva.context_processors.context_processors import ContextProcessor  # noqa: E402
+
+
+class VerifMixedKeysContextProcessor(ContextProcessor):
+    """Publishes one entry under an integer key and one under a string key."""
+
+    @classmethod
+    def context_keys(cls):
+        return [1, "a"]
+
+    def _process_logic(self):
+        self._notify_context_update(1, "one")
+        self._notify_context_update("a", "A")
+
+
+def _nested(depth, leaf):
+    v = [leaf]
+    for _ in range(depth):
+        v = [v]
+    return v
+
+
+class VerifDeepTreeContextProcessor(ContextProcessor):
+    """Replaces the context entry `tree` by a very deeply nested list."""
+
+    @classmethod
+    def context_keys(cls):
+        return ["tree"]
+
+    def _process_logic(self):
+        self._notify_context_update("tree", _nested(5000, 2))
+
+
+class VerifUnhashableReprContextProcessor(ContextProcessor):
+    """Publishes a value whose repr() raises (a legal Python object)."""
+
+    @classmethod
+    def context_keys(cls):
+        return ["odd"]
+
+    def _process_logic(self):
+        class Odd:
+            def __repr__(self):
+                raise RuntimeError("verif: repr not available")
+        self._notify_context_update("odd", Odd())
